@@ -1,3 +1,4 @@
 pub mod simkit;
 pub mod props;
 pub mod model;
+pub mod sp_bin;
